@@ -334,7 +334,7 @@ def check_program(chk, prover, mod, prog, src, stats, data=None, prop='C01'):
             bits, signed = INTS[t]
             v = z3.BitVec(p['name'], bits); refargs.append(('i', bits, signed, v))
         args.append(v)
-    eng = Engine(mod, event_funcs={'mark'}, max_visits=12, max_paths=MAX_PATHS * 2, data=data)
+    eng = Engine(mod, event_funcs={'mark'}, max_visits=12 if chk.tier == 'quick' else 48, max_paths=MAX_PATHS * 2, data=data)
     st = State(); st.pc.extend(pre)
     try:
         cpaths = eng.run(mod.by_pretty(prog['entry']), args, st)
@@ -345,7 +345,8 @@ def check_program(chk, prover, mod, prog, src, stats, data=None, prop='C01'):
     chk.funcs_encoded.update(eng.funcs_run); chk.solver_s += eng.solver_s
     chk.cov['ir_instructions_executed'] = chk.cov.get('ir_instructions_executed', 0) + eng.steps_total
     if any(p.status == 'bound' for p in cpaths):
-        raise Inconclusive(prog['entry'] + ': path cut at the unwinding bound')
+        # nested loops revisit a block more often than the unwinding bound allows: the program is set aside and counted
+        stats['skipped_unwinding_bound'] = stats.get('skipped_unwinding_bound', 0) + 1; return None
     if len(cpaths) > MAX_PATHS:
         stats['skipped_too_many_paths'] += 1; return None
     try:
